@@ -78,7 +78,7 @@ ISA_WEIGHTS = {
 
 # ---------------------------------------------------------------------------
 def plan(prop, tier, seed):
-    n, calls = (32, 20000) if tier == "quick" else (480, 40000)
+    n, calls = (32, 20000) if tier == "quick" else (240, 40000)
     specs = [{"kind": "random", "seed": run_seed(seed, prop, tier, i), "calls": calls, "want_sample": i < 3} for i in range(n)]
     # pair layer: a seeded slice in quick, everything in thorough
     from ..isa import CPU_MODULES
